@@ -20,8 +20,10 @@ setup)
   ;;
 lane)
   # tools/lanes.sh lane <N> <k> : internal
-  k=$3; L=/tmp/lane$k
-  ls -d /verif/seeded/*/ | sort | awk -v n=$N -v k=$k 'NR % n == k % n' | while read d; do
+  # optional 4th argument: take the share of lane <share> in reverse order (a helper lane that
+  # works towards a slow lane from the other end)
+  k=$3; L=/tmp/lane$k; share=${4:-$k}; rev=cat; [ -n "$4" ] && rev=tac
+  ls -d /verif/seeded/*/ | sort | awk -v n=$N -v k=$share 'NR % n == k % n' | $rev | while read d; do
     d=${d%/}
     id=$(basename $d | sed 's/^own-//; s/-.*//')
     cd $L/repo && git checkout -q -- . && git apply $d/patch.diff 2>/dev/null || { echo "$(date +%H:%M:%S) NOAPPLY $d"; cd $L/repo && git checkout -q -- .; continue; }
